@@ -10,13 +10,16 @@
 (*   "same" every thread runs the whole alphabet in the SAME order from    *)
 (*          the same start, so that several instances of the same query    *)
 (*          kind execute simultaneously (thread counts SameCounts);        *)
+(*   "lock" like "same", and the threads meet at a barrier before EVERY    *)
+(*          query (mode "lock"), so that the first calls of a query on the *)
+(*          freshly built shared object overlap (thread counts LockCounts);*)
 (*   "rnd"  pseudo-random programs of RndLen queries (seeded).             *)
 (* Every alphabet must contain RequiredOps (all lookups, every circulator  *)
 (* kind, the circulator-based geometry queries).                           *)
 (***************************************************************************)
 EXTENDS OVMReadersDefs, Json, IOUtils
 
-CONSTANTS Seed, ThreadCounts, SameCounts, RndCases, RndLen, Reps, RepsBig
+CONSTANTS Seed, ThreadCounts, SameCounts, LockCounts, RndCases, RndLen, Reps, RepsBig
 
 Ms == ndJsonDeserialize(IOEnv.MESHES)
 AlphaOf == [i \in 1 .. Len(Ms) |-> Alphabet(Ms[i].proj, Ms[i].type)]
@@ -30,14 +33,18 @@ Start(i, T, k, t) == ((Seed % 1000) * 7919 + i * 10007 + T * 1009 + k * 101 + t 
 
 TC == SetToSeq(ThreadCounts)
 Cases ==
-  UNION { UNION { {[mesh |-> Ms[i].name, case |-> i * 1000 + T * 10, kind |-> "rot", threads |-> T,
+  UNION { UNION { {[mesh |-> Ms[i].name, case |-> i * 1000 + T * 10, kind |-> "rot", mode |-> "free", threads |-> T,
                     reps |-> IF T <= 4 THEN RepsBig ELSE Reps,
                     progs |-> [t \in 1 .. T |-> Rot(Len(AlphaOf[i]), T, t)]]}
                   \cup (IF T \in SameCounts
-                          THEN {[mesh |-> Ms[i].name, case |-> i * 1000 + T * 10 + 9, kind |-> "same", threads |-> T, reps |-> Reps,
+                          THEN {[mesh |-> Ms[i].name, case |-> i * 1000 + T * 10 + 9, kind |-> "same", mode |-> "free", threads |-> T, reps |-> Reps,
                                  progs |-> [t \in 1 .. T |-> Rot(Len(AlphaOf[i]), 1, 1)]]}
                           ELSE {})
-                  \cup {[mesh |-> Ms[i].name, case |-> i * 1000 + T * 10 + k, kind |-> "rnd", threads |-> T, reps |-> RepsBig,
+                  \cup (IF T \in LockCounts
+                          THEN {[mesh |-> Ms[i].name, case |-> i * 1000 + T * 10 + 8, kind |-> "lock", mode |-> "lock", threads |-> T, reps |-> 2,
+                                 progs |-> [t \in 1 .. T |-> Rot(Len(AlphaOf[i]), 1, 1)]]}
+                          ELSE {})
+                  \cup {[mesh |-> Ms[i].name, case |-> i * 1000 + T * 10 + k, kind |-> "rnd", mode |-> "free", threads |-> T, reps |-> RepsBig,
                          progs |-> [t \in 1 .. T |-> Rnd(Start(i, T, k, t), RndLen, Len(AlphaOf[i]))]] : k \in 1 .. RndCases}
                   : T \in ThreadCounts }
           : i \in 1 .. Len(Ms) }
